@@ -15,6 +15,7 @@ its result, so none of the theorems needs a side condition on the run.
 import JanetModel.Table.Pow2
 import JanetModel.Table.StructLemmas
 import JanetModel.Table.StructBuild
+import JanetModel.Table.StructDup
 import JanetModel.Seq.BufOps
 
 namespace JanetModel.Props.C04
@@ -770,6 +771,73 @@ example : ((run (fun k => 7 * k) (Table.init 0)
 example : RankInj id := fun _ _ e => e
 example : (freezeLevel (fun k => 7 * k) id (run (fun k => 7 * k) (Table.init 0)
     [.put (.key 1) 5, .put (.key 9) 6, .put (.key 17) 7, .remove 9])).rawget (fun k => 7 * k) 17 = 7 := by decide
+
+/-! ## Session 4d — the ordering invariant of the robin-hood layout; repeated keys (`status == 0`)
+
+`OInv` (Table/StructDup.lean): every stored key, carried again from its home bucket, would pass over (`status == -1`)
+every occupant it meets before its own bucket.  `janet_struct_put_ext` keeps it, and under it a stored key is met with
+`status == 0` before any swap or empty bucket.  So a struct literal / `struct` / `struct/with-proto` argument list
+that REPEATS keys needs no certificate either: it is the finite map in which the last non-nil value of a key wins. -/
+
+/-- **`janet_struct_put_ext`, the `status == 0` path**: putting a key that is already stored (in bucket `p`) into a
+struct under construction changes nothing but that bucket's value -/
+theorem struct_put_existing_key (h : Nat → Nat) (rank : Nat → Nat) (st : StructB) (key : Nat) (v : Val) (p : Nat)
+    (inv : OBInv h rank st) (hp : (slotAt st.data p).key = some key) (hv : v ≠ vNil) (hroom : st.filled < st.length) :
+    structPut h rank true st key v = { st with data := st.data.setIfInBounds p ⟨some key, v⟩ } :=
+  structPut_dup h rank st key v p inv hp hv hroom
+
+/-- **`janet_struct_put_ext`, any key**: the construction invariant WITH the ordering of the layout (`OBInv`) is kept;
+a new key is added, a stored key gets the new value, every other entry stays -/
+theorem struct_put_any_key (h : Nat → Nat) (rank : Nat → Nat) (hr : RankInj rank)
+    (st : StructB) (key : Nat) (v : Val) (inv : OBInv h rank st) (hv : v ≠ vNil) (hroom : st.filled < st.length) :
+    OBInv h rank (structPut h rank true st key v) ∧
+    (structPut h rank true st key v).filled ≤ st.filled + 1 ∧
+    (structPut h rank true st key v).length = st.length ∧
+    ∀ k v', Ent (structPut h rank true st key v).data k v' ↔ ((k = key ∧ v' = v) ∨ (k ≠ key ∧ Ent st.data k v')) :=
+  structPut_any h rank hr st key v inv hv hroom
+
+/-- a fresh `janet_struct_begin(count)` satisfies the construction invariant with ordering (`2 * count` fits the
+`int32_t` capacity computation, as everywhere in struct.c) -/
+theorem struct_begin_ordered (h : Nat → Nat) (rank : Nat → Nat) (count : Nat) (hc : 2 * count < 2 ^ 32) :
+    OBInv h rank (structBegin count) := OBInv.begin h rank count hc
+
+/-- **struct literals / `struct` / `struct/with-proto` with ANY arguments, repeated keys included**: the struct
+invariant holds, `length` = number of live buckets, no prototype, and lookup gives the LAST non-nil value that the
+argument list holds for the key (nil when there is none) -/
+theorem struct_last_value_wins (h : Nat → Nat) (rank : Nat → Nat) (hr : RankInj rank)
+    (kvs : List (Nat × Val)) (n : Nat) (hn : kvs.length ≤ n) (hc : 2 * n < 2 ^ 32) :
+    SInv h (structEnd h rank (putArgs h rank (structBegin n) kvs)) ∧
+    (∀ k, (structEnd h rank (putArgs h rank (structBegin n) kvs)).rawget h k = (litMap kvs (fun _ => none) k).getD vNil) ∧
+    (∀ k v, Ent (structEnd h rank (putArgs h rank (structBegin n) kvs)).data k v ↔ litMap kvs (fun _ => none) k = some v) ∧
+    nLive (structEnd h rank (putArgs h rank (structBegin n) kvs)).data =
+      (structEnd h rank (putArgs h rank (structBegin n) kvs)).length ∧
+    (structEnd h rank (putArgs h rank (structBegin n) kvs)).proto = none := by
+  obtain ⟨r1, r2, r3, r4⟩ := structLiteral_any h rank hr kvs n hn hc
+  refine ⟨r1, ?_, r2, r3, r4⟩
+  intro k
+  cases hm : litMap kvs (fun _ => none) k with
+  | none =>
+    rw [Option.getD_none]
+    apply struct_rawget_miss r1
+    intro i hi
+    have := (r2 k _).mp ⟨i, hi, rfl⟩
+    rw [hm] at this; cases this
+  | some v =>
+    rw [Option.getD_some]
+    obtain ⟨i, hi, hv⟩ := (r2 k v).mpr hm
+    rw [(struct_rawget_hit r1 hi).1, hv]
+
+/-- non-vacuity: keys 1, 9, 17 collide (capacity 16, `h k = 7 * k`, all home bucket 7); key 1 and key 9 are repeated,
+one repeat has a nil value (dropped): the last non-nil values win, three entries, the struct is rebuilt -/
+example : let s := structEnd (fun k => 7 * k) id (putArgs (fun k => 7 * k) id (structBegin 6) [(1, 5), (9, 6), (1, 7), (17, 3), (9, 8), (1, 0)])
+    (s.rawget (fun k => 7 * k) 1, s.rawget (fun k => 7 * k) 9, s.rawget (fun k => 7 * k) 17, s.length) = (7, 8, 3, 3) := by decide
+example : litMap [(1, 5), (9, 6), (1, 7), (17, 3), (9, 8), (1, 0)] (fun _ => none) 1 = some 7 := by decide
+/-- non-vacuity: `OBInv` (with the ordering invariant) holds for a builder holding colliding keys -/
+example : OBInv (fun k => 7 * k) id (putArgs (fun k => 7 * k) id (structBegin 6) [(1, 5), (9, 6), (17, 3)]) :=
+  (putArgs_any (fun k => 7 * k) id (fun _ _ e => e) [(1, 5), (9, 6), (17, 3)] (structBegin 6) (fun _ => none)
+    (OBInv.begin _ _ 6 (by decide))
+    (fun k v => ⟨fun hb => absurd hb (ent_replicate _ k v), fun hb => by cases hb⟩) (by decide)).1
+example : nLive (putArgs (fun k => 7 * k) id (structBegin 6) [(1, 5), (9, 6), (17, 3)]).data = 3 := by decide
 
 end JanetModel.Props.C04
 
